@@ -213,8 +213,14 @@ pub fn run(_lane: &str, args: &[&str]) -> (String, Option<String>) {
             if m.withheld { silent.lock().unwrap().insert(next_id); }
             let before = log.lock().unwrap().len();
             let (sent_err, eff): (Option<String>, Mods) = match mb {
-                None => { set_mods(&mut ldap, m); let eff = overlay(&pend, m); pend = none.clone(); (invoke(&mut ldap, op).await, eff) }
-                Some(mb) => { set_mods(&mut ldap, mb); pend = overlay(&pend, mb); let mut k = ldap.clone(); set_mods(&mut k, m); (invoke(&mut k, op).await, m.clone()) }
+                None => { set_mods(&mut ldap, m); let eff = overlay(&pend, m); pend = none.clone(); let r = invoke(&mut ldap, op).await;
+                    // C02: "controls, timeout and search options set on a handle affect exactly the next operation invoked on it and none after it":
+                    // whatever the outcome of the call, nothing may still be parked on the handle afterwards (a stale timeout shows in no request)
+                    if ldap.timeout.is_some() || ldap.controls.is_some() || ldap.search_opts.is_some() { oracle.get_or_insert(format!("[only:C02,C12] after {} the handle still holds modifiers (timeout {:?}, controls {}, search options {}): they would affect a later operation", show_op(op), ldap.timeout, ldap.controls.is_some(), ldap.search_opts.is_some())); }
+                    (r, eff) }
+                Some(mb) => { set_mods(&mut ldap, mb); pend = overlay(&pend, mb); let mut k = ldap.clone(); set_mods(&mut k, m); let r = invoke(&mut k, op).await;
+                    if k.timeout.is_some() || k.controls.is_some() || k.search_opts.is_some() { oracle.get_or_insert(format!("[only:C02,C12] after {} the cloned handle still holds modifiers (timeout {:?}, controls {}, search options {})", show_op(op), k.timeout, k.controls.is_some(), k.search_opts.is_some())); }
+                    (r, m.clone()) }
             };
             let m = &eff;
             settle().await;
